@@ -636,6 +636,74 @@ next:;
 	}
 }
 
+
+/* ================= mode=jobs : the scheduler-layer (job level) entry points called directly ================= */
+/* _<alg>_mb_mgr_{submit,flush}_<fam> are CPU-specific entry points of their own (declared in *_mb_internal.h); the
+ * context layer above them is C code that may save and restore registers the assembly clobbers, so they are also
+ * driven directly: submit with 0..L-1 live lanes (early NULL return), submit that fills the lanes, flush with
+ * L..1 live lanes, flush on an empty manager. A context doubles as a job (the job is at offset 0). */
+static void run_jobs(void)
+{
+	long item = 0;
+	for (unsigned fi = 0; fi < NFAM; fi++) {
+		if (!strcmp(fams[fi].name, "base")) continue;
+		if (item++ % vk_nshards != vk_shard) continue;
+		if (!setup_instance(&fams[fi])) continue;
+		char ns[96], nf[96];
+		if (!strcmp(F->name, "sb_sse4")) { snprintf(ns, sizeof ns, "_%s_sb_mgr_submit_sse4", A->name); snprintf(nf, sizeof nf, "_%s_sb_mgr_flush_sse4", A->name); }
+		else { snprintf(ns, sizeof ns, "_%s_mb_mgr_submit_%s", A->name, F->name); snprintf(nf, sizeof nf, "_%s_mb_mgr_flush_%s", A->name, F->name); }
+		void *js = vk_sym(ns), *jf = vk_sym(nf);
+		if (!js && strstr(F->name, "_ni")) { char base[32]; snprintf(base, sizeof base, "%.*s", (int)(strlen(F->name) - 3), F->name); snprintf(ns, sizeof ns, "_%s_mb_mgr_submit_%s", A->name, base); js = vk_sym(ns); }   /* avx512_ni shares the avx512 submit */
+		if (!js || !jf) { vk_note("instance %s: no job-level symbols %s / %s", inst, ns, nf); vk_stat("missing_symbol", 1); continue; }
+		unsigned B = A->block;
+		size_t o_buf = 0, o_len = 8;      /* ISAL_*_JOB: buffer, len, aligned digest */
+		for (int round = 0; round < (vk_thorough ? 12 : 4); round++) {
+			vk_canary_fill(&s_arena); memset(s_arena.rw + arena_off, 0, arena_size);
+			do_init();
+			if (faulted) break;
+			unsigned njobs = L + 2 + round; if (njobs > K) njobs = K;
+			ref_hash exp[MAXK]; int pending[MAXK]; memset(pending, 0, sizeof pending);
+			int live = 0, bad = 0;
+			for (unsigned j = 0; j <= njobs + L + 2 && !bad; j++) {
+				void *r = NULL; int fl = j >= njobs;
+				faulted = 0;
+				if (!fl) {
+					uint8_t *job = CTX(j);
+					uint32_t nblk = 1 + (j * 3 + round) % 5;
+					const uint8_t *buf = s_pool.ro + ((j * 197 + round * 64) & 0x7ff);
+					FIELD(job, o_buf, const uint8_t *) = buf; FIELD(job, o_len, uint64_t) = nblk;
+					ref_hash_init(&exp[j], A->ref);
+					for (unsigned w = 0; w < A->dwords; w++) { uint64_t cv = vk_mix(j * 31 + w + round) & (A->wsize == 8 ? ~0ull : 0xffffffffull); exp[j].h[w] = cv; if (A->wsize == 8) FIELD(job, A->o_digest + 8 * w, uint64_t) = cv; else FIELD(job, A->o_digest + 4 * w, uint32_t) = (uint32_t)cv; }
+					FIELD(job, A->o_job_user, void *) = (void *)(uintptr_t)(0xbeef00 + j);
+					ref_hash_update(&exp[j], buf, (size_t)nblk * B);
+					pending[j] = 1; live++;
+					if (VK_TRY()) { r = (void *)VCALLN(js, ns, AP(mgr), AP(job)); VK_END_TRY(); } else { faulted = 1; fault_report(ns); }
+				} else {
+					if (VK_TRY()) { r = (void *)VCALLN(jf, nf, AP(mgr)); VK_END_TRY(); } else { faulted = 1; fault_report(nf); }
+				}
+				vk_stat("transitions", 1);
+				if (faulted) { bad = 1; break; }
+				if (r) {
+					int ri = ctx_index(r);
+					if (ri < 0 || !pending[ri]) { viol("C06", "job_level_unknown_return", "%s returned %p: not a job this manager holds", fl ? nf : ns, r); bad = 1; break; }
+					pending[ri] = 0; live--;
+					uint8_t *job = CTX(ri);
+					int okd = 1;
+					for (unsigned w = 0; w < A->dwords; w++) { uint64_t got = A->wsize == 8 ? FIELD(job, A->o_digest + 8 * w, uint64_t) : FIELD(job, A->o_digest + 4 * w, uint32_t); if (got != exp[ri].h[w]) okd = 0; }
+					vk_stat("digests_checked", 1);
+					if (!okd) { viol("C01", "job_level_digest", "job %d returned by %s has a chaining value different from the reference compression of its blocks", ri, fl ? nf : ns); bad = 1; break; }
+					if (FIELD(job, A->o_job_user, void *) != (void *)(uintptr_t)(0xbeef00 + ri)) { viol("C06", "job_user_data_modified", "job %d user_data changed", ri); bad = 1; break; }
+				} else if (fl) {
+					if (live != 0) { viol("C06", "job_level_flush_null_with_jobs", "%s returned NULL with %d jobs in the manager", nf, live); bad = 1; }
+					break;
+				}
+			}
+			{ long cb = vk_canary_check(&s_arena, arena_off, arena_size); if (cb >= 0) viol("C08", "canary:arena", "job-level call wrote outside manager/job objects"); }
+			vk_stat("job_rounds", 1);
+		}
+	}
+}
+
 /* ================= mode=len : length accounting across 2^29 and 2^32 (C15) ================= */
 static void run_len(void)
 {
@@ -650,9 +718,21 @@ static void run_len(void)
 		unsigned B = A->block, maxl = 2 * B + 1;
 		unsigned stepl = vk_thorough ? 1 : 3;
 		for (unsigned m0 = 0; m0 < B; m0++) {       /* every residue of the first piece */
-			for (unsigned delta = 1; delta <= 2 * B; delta += (vk_thorough ? 1 : (B / 8 + 1))) {
+			for (unsigned delta = 1; delta <= 2 * B; delta += (vk_thorough ? 1 : (B / 4 + 1))) {
 				if (vk_deadline_hit()) { vk_stat("deadline_skipped", 1); goto next; }
-				for (unsigned l1 = (delta > 2 ? delta - 2 : 0); l1 <= maxl && l1 <= delta + B + 1; l1 += stepl) for (unsigned l2 = 0; l2 <= B + 1; l2 += (vk_thorough ? 1 : 5)) {
+				/* l1: around the crossing point (delta) and one block later; l2: block-boundary classes */
+				unsigned l1s[40], nl1 = 0, l2s[24], nl2 = 0;
+				if (vk_thorough) {
+					for (int d = -2; d <= 2; d++) if ((int)delta + d >= 0) l1s[nl1++] = delta + d;
+					l1s[nl1++] = delta + B - 1; l1s[nl1++] = delta + B; l1s[nl1++] = delta + B + 1; l1s[nl1++] = 0; l1s[nl1++] = 1; l1s[nl1++] = B; l1s[nl1++] = maxl;
+				} else for (unsigned l1 = (delta > 2 ? delta - 2 : 0); l1 <= maxl && l1 <= delta + B + 1; l1 += stepl) l1s[nl1++] = l1;
+				if (vk_thorough) { unsigned c[] = { 0, 1, B - 1, B, B + 1, maxl }; for (unsigned i = 0; i < 6; i++) l2s[nl2++] = c[i]; }
+				else for (unsigned l2 = 0; l2 <= B + 1; l2 += 5) l2s[nl2++] = l2;
+				for (unsigned i1 = 0; i1 < nl1; i1++) for (unsigned i2 = 0; i2 < nl2 + (vk_thorough ? 3 : 0); i2++) {
+					unsigned l1 = l1s[i1], l2;
+					if (l1 > maxl) continue;
+					if (i2 < nl2) l2 = l2s[i2]; else { int r = (int)(B - ((m0 + l1) % B)) + (int)(i2 - nl2) - 1; if (r < 0) continue; l2 = (unsigned)r; }   /* completes the block exactly, +-1 */
+					if (vk_deadline_hit()) { vk_stat("deadline_skipped", 1); goto next; }
 					fresh_system();
 					if (faulted) goto next;
 					sym s0 = { 1, 0, ISAL_HASH_FIRST, m0, 0 };
@@ -702,6 +782,7 @@ int main(int argc, char **argv)
 	if (!strcmp(mode, "explore")) run_explore();
 	else if (!strcmp(mode, "seg")) run_seg();
 	else if (!strcmp(mode, "len")) run_len();
+	else if (!strcmp(mode, "jobs")) run_jobs();
 	vk_sample("explore: sha256_avx2 policy entire-fill, deviation after 9 submits: REJ(c3,0x4,64) then SUBMIT(c9,LAST,65) ... FLUSH x8; seg: sha1_sse_ni FIRST(63)/UPDATE(66)/LAST(0) with 1 background job");
 	vk_finish();
 	return 0;
